@@ -176,81 +176,139 @@ def r1(ctx):
     ctx.floor("C08.R1", 11)
 
 
-def eval_get_range(f, order, has_successor=1):
-    """StoreInstance::get_range evaluated (K6'): returns (rendered result, [bounds of each table scan in order of creation])"""
+def _rid(ns, author, key):
+    return "rid:%s:%s:%s" % (ns.hex(), author.hex(), key.hex())
+
+
+def _rid_bytes(tok):
+    p_ = tok.strip("&*").split(":")
+    return bytes.fromhex(p_[1]), bytes.fromhex(p_[2]), bytes.fromhex(p_[3]) if len(p_) > 3 and p_[3] else b""
+
+
+def eval_get_range(f, ns, x, y):
+    """StoreInstance::get_range evaluated (K6') for the replica of the concrete namespace `ns` on the range from x to y (record
+    identifiers = (namespace, author, key) byte triples, possibly of other namespaces): returns (rendered result, [rendered
+    bounds of each records-table scan in order of creation])"""
     from . import feval as E
-    inl = [x.path for x in f.bodies.values() if x.path.startswith("store::fs::bounds::") and not x.path.endswith("increment_by_one")]
+    from . import keyrange as KR
+    inl = [p_.path for p_ in f.bodies.values() if p_.path.startswith("store::fs::bounds::") and not p_.path.endswith("increment_by_one")]
     scans = []
 
     def oracle(kind, name, payload, site):
         if kind == "cmp":
-            a, b = name, payload
-            if a == "x(range)" and b == "y(range)":
-                return order
-            if a == "y(range)" and b == "x(range)":
-                return -order
-            return None
+            a, b_ = str(name).strip("&*"), str(payload).strip("&*")
+            if a.startswith("rid:") and b_.startswith("rid:"):
+                ka, kb = _rid_bytes(a), _rid_bytes(b_)
+                return (ka > kb) - (ka < kb)
+            return KR.cmp_rendered(a, b_)
+        if kind == "eq":
+            c = KR.cmp_rendered(str(name), str(payload))
+            return None if c is None else (c == 0)
         if kind != "call":
             return None
         t, args, it = payload
-        names = [it.tokname(a) for a in args]
+        names = [it.tokname(a).strip("&*") for a in args]
+        full = (t["f"].get("full") or "") + (t["f"].get("path") or "")
         if name == "tables":
             return E.Ok(E.Tok("tables"))
-        if name == "range" and "Table" in (t["f"].get("full") or "") + (t["f"].get("path") or ""):
-            scans.append((names[0], names[1]))
+        if name == "range" and "Table" in full:
+            scans.append((names[0], E.describe(it.resolve(args[1]), f)))
             return E.Ok(E.Tok("scan%d" % len(scans)))
-        if name == "to_byte_tuple":
-            return E.Tok("tuple(%s)" % names[0])
-        if name == "increment_by_one":
-            if args[0][0] == "ref":
-                it.write_loc(args[0][1], E.Tok("succ(%s)" % names[0]))
-            return E.Int(has_successor)
-        if name in ("to_bytes", "as_bytes"):
-            return E.Tok("bytes(%s)" % names[0])
+        if name in ("to_byte_tuple", "as_byte_tuple") and names and names[0].startswith("rid:"):
+            n_, a_, k_ = _rid_bytes(names[0])
+            return ("tuple", [E.Tok("id:" + n_.hex()), E.Tok("id:" + a_.hex()), E.Tok("key:" + k_.hex()) if k_ else E.Tok("empty")])
+        if name == "increment_by_one" and names and names[0].startswith("id:"):
+            v = bytearray(bytes.fromhex(names[0][3:]))
+            for i in range(len(v) - 1, -1, -1):
+                if v[i] != 255:
+                    v[i] += 1
+                    for j in range(i + 1, len(v)):
+                        v[j] = 0
+                    if args[0][0] == "ref":
+                        it.write_loc(args[0][1], E.Tok("id:" + bytes(v).hex()))
+                    return E.Int(1)
+            return E.Int(0)
+        if name in ("to_bytes", "as_bytes") and names and names[0].startswith("nsid:"):
+            return E.Tok("id:" + names[0][5:])
         if name == "new" and callee_matches(t, r"Bytes::new"):
             return E.Tok("empty")
+        if name in ("max", "min") and len(args) == 2 and "cmp::Ord" in full:
+            c = KR.cmp_rendered(E.describe(it.resolve(args[0]), f), E.describe(it.resolve(args[1]), f))
+            if c is not None:
+                return args[0] if ((c >= 0) == (name == "max")) else args[1]
         if name in ("into_iter", "flatten"):
             return args[0]
         if name == "chain":
             return E.Tok("chain(%s,%s)" % (names[0], names[1]))
+        if name == "clone":
+            return args[0]
         return None
+    rng = E.struct(f, "ranger::Range", x=E.Tok(_rid(*x)), y=E.Tok(_rid(*y)))
+    me = E.struct(f, "store::fs::StoreInstance", namespace=E.Tok("nsid:" + ns.hex()), store=E.Tok("store"))
     try:
-        ret, hp, ev = E.run(f, SI + "get_range", [E.href("self"), E.Tok("range")], {"self": E.Tok("self")}, oracle, inline=inl)
+        ret, hp, ev = E.run(f, SI + "get_range", [E.href("self"), rng], {"self": me}, oracle, inline=inl)
         return E.describe(ret, f), scans
     except E.Unsupported as e:
         return "UNSUPPORTED-FORM: %s" % e, scans
 
 
 def r2(ctx):
-    """get_range as a function of cmp(range.x, range.y): which table scans are opened, with which bounds, chained in which order"""
+    """get_range against the ordered-map definition, decided on sample records: the replica's own records inside the circular
+    range [x, y), in the order a wrap-around scan visits them ([start, y) then [x, end)) - and nothing else, whatever namespace
+    the end points name (the records of all documents share one table, and the end points come from the remote peer)"""
     import re as _re
+    from . import keyrange as KR
     f = ctx.facts
     b = f.body(SI + "get_range")
     ctx.touch(b)
-    for bb in ("store::fs::bounds::RecordsBounds::from_start", "store::fs::bounds::RecordsBounds::to_end", "store::fs::bounds::RecordsBounds::namespace", "store::fs::bounds::RecordsBounds::new"):
-        ctx.touch(f.body(bb))
-    NS0 = "(bytes(self.namespace),[0; _],empty)"
-    X, Y = "tuple(x(range))", "tuple(y(range))"
-    for succ in (1, 0):
-        NSE = "Excluded((succ(bytes(self.namespace)),[0; _],empty))" if succ else "Unbounded"
-        spec = {
-            -1: [("RecordsBounds(Included(%s),Excluded(%s))" % (X, Y))],
-            0: [("RecordsBounds(Included(%s),%s)" % (NS0, NSE))],
-            1: [("RecordsBounds(Included(%s),Excluded(%s))" % (NS0, Y)), ("RecordsBounds(Included(%s),%s)" % (X, NSE))],
-        }
-        for order, nm in ((-1, "Less"), (0, "Equal"), (1, "Greater")):
-            got, scans = eval_get_range(f, order, succ)
-            want = spec[order]
-            bounds = [s[1] for s in scans]
-            ok = got.startswith("Ok(") and sorted(bounds) == sorted(want) and all(s[0] == "tables.records" for s in scans)
-            if ok:
-                # order of the scans in the returned iterator: exactly the scans opened, the [start,y) part before the [x,end) part
-                ids = _re.findall(r"scan(\d+)", got)
-                seq = [bounds[int(i) - 1] for i in ids]
-                ok = seq == want
-            label = {"Less": "Less=[x,y)", "Equal": "Equal=whole-namespace", "Greater": "Greater=[start,y)++[x,end)"}[nm]
-            ctx.check(ok, "C08.R2", b.path, "%s%s" % (label, "" if succ else "[namespace-without-successor]"),
-                      "cmp(x,y)=%s: returns %s over scans %s; spec: scans with bounds %s in this order, on the records table" % (nm, got, scans, want), b.sp)
+    for bb in f.bodies.values():
+        if bb.path.startswith("store::fs::bounds::RecordsBounds::"):
+            ctx.touch(bb)
+    for ns_byte, label in ((7, "namespace=07.."), (255, "namespace=ff..(no successor)")):
+        N1 = bytes([ns_byte]) * 32
+        N0 = bytes([ns_byte]) * 31 + bytes([ns_byte - 1])
+        N2 = (bytes([ns_byte]) * 31 + bytes([ns_byte + 1])) if ns_byte < 255 else None
+        authors = [bytes([0]) * 32, bytes([5]) * 32, bytes([255]) * 32]
+        keys = [b"", b"k", b"\xff"]
+        samples = [(n_, a_, k_) for n_ in (N0, N1, N2) if n_ is not None for a_ in authors for k_ in keys]
+        ends = [(bytes(32), bytes(32), b""), (N0, authors[1], b"k"), (N1, authors[0], b""), (N1, authors[1], b"k"), (N1, authors[2], b"\xff"),
+                (bytes([255]) * 32, bytes([255]) * 32, b"\xff")] + ([(N2, authors[1], b"k")] if N2 else [])
+        bad = {"Less": [], "Equal": [], "Greater": []}
+        n = {"Less": 0, "Equal": 0, "Greater": 0}
+        for x in ends:
+            for y in ends:
+                arm = "Less" if x < y else ("Equal" if x == y else "Greater")
+                n[arm] += 1
+                got, scans = eval_get_range(f, N1, x, y)
+                tag = "x=(%s..,%s..,%r) y=(%s..,%s..,%r)" % (x[0].hex()[:2] + x[0].hex()[-2:], x[1].hex()[:2], x[2], y[0].hex()[:2] + y[0].hex()[-2:], y[1].hex()[:2], y[2])
+                if not got.startswith("Ok("):
+                    bad[arm].append("%s: %s" % (tag, got))
+                    continue
+                mine = sorted(s_ for s_ in samples if s_[0] == N1)
+                if x < y:
+                    want = [s_ for s_ in mine if x <= s_ < y]
+                elif x == y:
+                    want = mine
+                else:
+                    want = [s_ for s_ in mine if s_ < y] + [s_ for s_ in mine if s_ >= x]
+                try:
+                    rngs = [KR.bounds(sc[1]) for sc in scans]
+                    ids = [int(i) for i in _re.findall(r"scan(\d+)", got)]
+                    seq = []
+                    for i in ids:
+                        seq += [s_ for s_ in sorted(samples) if KR.inside(s_, rngs[i - 1])]
+                    if any(sc[0] != "tables.records" for sc in scans):
+                        bad[arm].append("%s: scans another table: %s" % (tag, [sc[0] for sc in scans]))
+                    elif seq != want:
+                        foreign = [s_ for s_ in seq if s_[0] != N1]
+                        bad[arm].append("%s: yields %d sample records (%d of other documents), the ordered map of this replica prescribes %d%s" % (
+                            tag, len(seq), len(foreign), len(want), "" if foreign or sorted(seq) != sorted(want) else " - same records, other order"))
+                except ValueError as e:
+                    bad[arm].append("%s: UNSUPPORTED-FORM: cannot read the scan bounds (%s)" % (tag, e))
+        for arm, lab in (("Less", "Less=[x,y)"), ("Equal", "Equal=whole-namespace"), ("Greater", "Greater=[start,y)++[x,end)")):
+            ctx.check(not bad[arm] and n[arm] >= 6, "C08.R2", b.path, "%s[%s]" % (lab, label),
+                      "%d ranges with cmp(x,y)=%s (end points inside this namespace, in neighbouring ones, all-zero, all-0xFF) evaluated and decided on %d sample records of this and the neighbouring documents; deviating (%d): %s"
+                      % (n[arm], arm, len(samples), len(bad[arm]), bad[arm][:3]), b.sp)
     ctx.floor("C08.R2", 6)
 
 
